@@ -120,6 +120,7 @@ func absWalk(fn *ssa.Function, env *absEnv, counterStruct string, maxSteps int) 
 	visited := map[*ssa.BasicBlock]int{}
 	var prev *ssa.BasicBlock
 	phiVals := map[ssa.Value]absVal{}
+	choice := map[*ssa.Phi]ssa.Value{}
 	for steps := 0; steps < maxSteps; steps++ {
 		visited[blk]++
 		if visited[blk] > 2 {
@@ -133,9 +134,29 @@ func absWalk(fn *ssa.Function, env *absEnv, counterStruct string, maxSteps int) 
 					if p == prev {
 						phiVals[x] = env.nilness(x.Edges[i])
 						env.vals[pathOf(x)] = phiVals[x]
+						choice[x] = x.Edges[i]
 					}
 				}
 			case *ssa.Store:
+				if _, f, _, ok := fieldRef(x.Addr); ok && f == "expires" {
+					// which TTL the entry gets on this path
+					v := x.Val
+					if cl, isC := v.(*ssa.Call); isC && len(cl.Call.Args) == 2 {
+						arg := cl.Call.Args[1]
+						for i := 0; i < 6; i++ {
+							ph, isPhi := arg.(*ssa.Phi)
+							if !isPhi {
+								break
+							}
+							nv, has := choice[ph]
+							if !has {
+								break
+							}
+							arg = nv
+						}
+						tr.Events = append(tr.Events, "expires<-"+pathOf(arg))
+					}
+				}
 				if t, f, _, ok := fieldRef(x.Addr); ok && t == counterStruct {
 					if b := asBinOp(x.Val, token.ADD, token.SUB); b != nil {
 						if one, isC := constInt(b.Y); isC && one == 1 {
@@ -442,29 +463,7 @@ func c12(c *Ctx) {
 			}
 		}
 		r.Check("answer:always-passed-on", okRet, hi.Pos(), "every InstanceInfo is queued for the client on every path")
-		// TTL by result kind
-		okTTL := 0
-		eachInstr(hi, func(in ssa.Instruction) {
-			if ph, ok := in.(*ssa.Phi); ok && ph.Comment == "ttl" {
-				for i, e := range ph.Edges {
-					p := pathOf(e)
-					pred := ph.Block().Preds[i]
-					cs := strings.Join(condStrings(pred), " && ")
-					edgeCond := ""
-					if ifi, ok := pred.Instrs[len(pred.Instrs)-1].(*ssa.If); ok {
-						edgeCond = fmt.Sprintf("%s=%v", condExpr(ifi.Cond), pred.Succs[0] == ph.Block())
-					}
-					cs += " && " + edgeCond
-					if strings.HasSuffix(p, ".CacheNegativeTTL") && strings.Contains(cs, "info.Instance==nil)=true") {
-						okTTL++
-					}
-					if strings.HasSuffix(p, ".CacheTTL") && strings.Contains(cs, "info.Instance==nil)=false") {
-						okTTL++
-					}
-				}
-			}
-		})
-		r.Check("ttl:by-result-kind", okTTL == 2, hi.Pos(), "negative TTL for nil results, positive TTL otherwise")
+		// TTL by result kind: checked per nil-ness case in R3 (handleInstanceInfo:<case>:ttl)
 	})
 
 	c.Rule("C12.R3", "gauge polarity: cache_positive / cache_negative change by exactly class(new entry) - class(old entry) in every nil-ness case; each idle eviction decrements the gauge of the evicted entry's class", 10, func(r *Rule) {
@@ -525,6 +524,18 @@ func c12(c *Ctx) {
 			}
 			gp, gn := tr.Deltas["statsCachePositive"], tr.Deltas["statsCacheNegative"]
 			r.Check("handleInstanceInfo:"+cs.name, gp == wantPos && gn == wantNeg, hi.Pos(), fmt.Sprintf("case %s: stored entry is %s; cache_positive %+d (expected %+d), cache_negative %+d (expected %+d)", cs.name, map[absVal]string{absNil: "negative", absNonNil: "positive"}[newIns], gp, wantPos, gn, wantNeg))
+			// the entry's lifetime follows the kind of the result: negative TTL for "nothing found", positive otherwise
+			ttl := ""
+			for _, ev := range tr.Events {
+				if strings.HasPrefix(ev, "expires<-") {
+					ttl = strings.TrimPrefix(ev, "expires<-")
+				}
+			}
+			wantTTL := ".CacheTTL"
+			if cs.res == absNil {
+				wantTTL = ".CacheNegativeTTL"
+			}
+			r.Check("handleInstanceInfo:"+cs.name+":ttl", strings.HasSuffix(ttl, wantTTL), hi.Pos(), "case "+cs.name+": entry expires after "+ttl+" (required "+wantTTL+")")
 			// never forget, as a case check too
 			if cs.cur == absNonNil && cs.curIns == absNonNil {
 				r.Check("handleInstanceInfo:"+cs.name+":keeps-instance", newIns == absNonNil, hi.Pos(), "a resolved source keeps serving an instance whatever the refresh returned")
